@@ -39,12 +39,25 @@ class Rec(object):
         return None
 
 
+def make_protocol(variant, ctor):
+    """the three documented ways to give the protocol its framer: default, a framer instance, a framer class"""
+    from pymodbus.factory import ClientDecoder
+    from pymodbus.transaction import ModbusSocketFramer, ModbusRtuFramer
+    cls = ModbusClientProtocol if variant == 'tcp' else ModbusSerClientProtocol
+    fr = ModbusSocketFramer if variant == 'tcp' else ModbusRtuFramer
+    if ctor == 'instance':
+        return cls(framer=fr(ClientDecoder()))
+    if ctor == 'class':
+        return cls(framer=fr)
+    return cls()
+
+
 def run_history(run, case):
     """case: variant tcp|rtu, n requests, events: list of ('reply', i) | ('dup', i) | ('unsolicited', tid) | ('lose',) | ('request',)
     group: how many consecutive reply events are delivered in one dataReceived; units: unit id per request"""
     variant, n, events, group, units = case['variant'], case['n'], case['events'], case.get('group', 1), case['units']
     repo.reset_globals()
-    p = ModbusClientProtocol() if variant == 'tcp' else ModbusSerClientProtocol()
+    p = make_protocol(variant, case.get('ctor', 'default'))
     tr = proto_helpers.StringTransport()
     p.makeConnection(tr)
     if case.get('tid_start') is not None:
@@ -249,7 +262,8 @@ def run(run):
             if r.random() < 0.5:
                 events.append(('reply', n))          # a reply arriving after the loss for the late request: must not resurrect it
         units = [1] if i % 4 else [1, 2, 3]
-        add(run, {'variant': variant, 'n': n, 'events': events, 'group': r.choice([1, 1, 2, 3, 50]), 'units': units, 'tid_start': r.choice([None, None, 65530, 65534])},
+        add(run, {'variant': variant, 'n': n, 'events': events, 'group': r.choice([1, 1, 2, 3, 50]), 'units': units, 'tid_start': r.choice([None, None, 65530, 65534]),
+                  'ctor': ('default', 'instance', 'class')[i % 3]},
             ('rand', variant, kind, len(units) > 1))
     # connection loss at every point of a fixed history
     for n in (1, 2, 4):
